@@ -115,6 +115,16 @@ class Evaluator:
                 raise NotPure('assignment to something other than an object field: ' + ir.pp(e))
             if e['k'] == 'cast' and ir.is_expr(e.get('e')) and ir.strip(e['e'])['k'] == 'c':
                 return
+            if e['k'] == 'call' and e.get('op') == '=' and ir.is_expr(e.get('obj')) and len(e.get('args', [])) == 1 and \
+                    (e.get('fn') is None or self.F.fn(e['fn']) is None or self.F.fn(e['fn']).d.get('implicit')):
+                # implicit (member-wise) copy / move assignment of a value object
+                tgt = self.raw(self.ev(e['obj'], fn, this, env, depth))
+                src = self.raw(self.ev(e['args'][0], fn, this, env, depth))
+                if isinstance(tgt, Obj) and isinstance(src, Obj):
+                    vals = dict(src)
+                    tgt.clear()
+                    tgt.update(vals)
+                    return
             raise NotPure('expression statement in a predicate: ' + ir.pp(e))
         elif k == 'null':
             return
